@@ -86,6 +86,27 @@ def r_frontend_reset(prog, rep):
     r.check(bool(rs) and any(p and a.startswith("system") for a, p in (bf.at_node(rs[0]) or frozenset())) and
             any((not p) and a == "cancelled" for a, p in (bf.at_node(rs[0]) or frozenset())),
             "initialize|reset-on-reuse", "", "a reused build system is not reset (after the cancelled test) before the next build", f)
+    # the per-build state (the cancel flag) is restored on *every* way out of build() / buildNode() — the early `return false` of a build that
+    # found itself cancelled before it started included: the guard that calls resetAfterBuild is registered before any return
+    from rules.engine import scope_guards
+    from sa import cfg as _cfg
+    for nm in ("build", "buildNode"):
+        for g in [x for x in prog.functions.values() if not x.is_lambda and x.name.endswith("BuildSystemFrontendImpl::" + nm)]:
+            gs = [(d, lf) for d, lf in scope_guards(prog, g) if lf.calls("resetAfterBuild")]
+            rets = [x for x in g.nodes if x.get("k") == "return"]
+            ok = len(gs) == 1 and bool(rets)
+            late = None
+            if ok:
+                dp = _cfg.pos_of(g, gs[0][0])
+                for x in rets:
+                    if not _cfg.dominated_by(g, _cfg.pos_of(g, x), lambda p, e: p == dp)[0]:
+                        ok, late = False, x
+                        break
+            r.check(ok, "%s|reset-guard-before-any-return" % nm, "", "%s() can return without resetAfterBuild(): a cancel that arrived before the build started stays "
+                    "set and every later build on this frontend fails in initialize()" % nm, g, late)
+    ra = prog.fn("BuildSystemFrontendImpl::resetAfterBuild")
+    clears = [n for n in ra.nodes if n.get("k") in ("bin", "call") and n.get("op") == "=" and "cancelled" in expr_str(n.child("l") if n.get("k") == "bin" else n.child("obj"))]
+    r.check(bool(clears), "resetAfterBuild|clears-cancelled", "", "resetAfterBuild does not clear the cancel flag", ra)
     for nm in ("initialize", "cancel", "resetAfterBuild"):
         g = prog.fn("BuildSystemFrontendImpl::" + nm)
         ls = LockSets(g)
